@@ -319,3 +319,62 @@ pub fn mutate_json(text: &str, kind: &str, pos: usize) -> (String, String) {
     }
     (v.to_string(), desc)
 }
+
+// ---- structured mutations of the JSON encoding (vocabulary of spec/Serde.tla) ----------------------
+/// The JSON encoding of a world is `[archetypes, {"length": n, "free": [{index, generation}..]}, resources]`,
+/// an archetype is `[identifier bytes, declared length, rows]`, a row is `[{index, generation}, components..]`.
+/// A mutation is `{k, a, r, v, g}` with 1-based positions; out-of-range positions are no-ops (exactly as
+/// `ApplyMut` in spec/Serde.tla).
+pub fn apply_struct_muts(text: &str, muts: &[Value]) -> String {
+    let mut v: Value = serde_json::from_str(text).unwrap();
+    for m in muts {
+        let k = m["k"].as_str().unwrap_or("");
+        let a = m["a"].as_u64().unwrap_or(0) as usize;
+        let r = m["r"].as_u64().unwrap_or(0) as usize;
+        let val = m["v"].as_u64().unwrap_or(0);
+        let g = m["g"].as_u64().unwrap_or(0);
+        let narch = v[0].as_array().map(|x| x.len()).unwrap_or(0);
+        let in_a = a >= 1 && a <= narch;
+        let nrows = if in_a { v[0][a - 1][2].as_array().map(|x| x.len()).unwrap_or(0) } else { 0 };
+        let in_r = in_a && r >= 1 && r <= nrows;
+        let nfree = v[1]["free"].as_array().map(|x| x.len()).unwrap_or(0);
+        let in_f = r >= 1 && r <= nfree;
+        match k {
+            "row_index" if in_r => v[0][a - 1][2][r - 1][0]["index"] = Value::from(val),
+            "row_gen" if in_r => v[0][a - 1][2][r - 1][0]["generation"] = Value::from(val),
+            "row_del" if in_r => {
+                v[0][a - 1][2].as_array_mut().unwrap().remove(r - 1);
+            }
+            "row_dup" if in_r => {
+                let c = v[0][a - 1][2][r - 1].clone();
+                v[0][a - 1][2].as_array_mut().unwrap().insert(r - 1, c);
+            }
+            "arch_len" if in_a => v[0][a - 1][1] = Value::from(val),
+            "arch_bits" if in_a => {
+                let n = v[0][a - 1][0].as_array().map(|x| x.len()).unwrap_or(0);
+                let bytes: Vec<Value> = (0..n).map(|i| Value::from((val >> (8 * i)) & 255)).collect();
+                v[0][a - 1][0] = Value::Array(bytes);
+            }
+            "arch_del" if in_a => {
+                v[0].as_array_mut().unwrap().remove(a - 1);
+            }
+            "arch_dup" if in_a => {
+                let c = v[0][a - 1].clone();
+                v[0].as_array_mut().unwrap().insert(a - 1, c);
+            }
+            "alloc_len" => v[1]["length"] = Value::from(val),
+            "free_del" if in_f => {
+                v[1]["free"].as_array_mut().unwrap().remove(r - 1);
+            }
+            "free_dup" if in_f => {
+                let c = v[1]["free"][r - 1].clone();
+                v[1]["free"].as_array_mut().unwrap().insert(r - 1, c);
+            }
+            "free_push" => v[1]["free"].as_array_mut().unwrap().push(serde_json::json!({"index": val, "generation": g})),
+            "free_index" if in_f => v[1]["free"][r - 1]["index"] = Value::from(val),
+            "free_gen" if in_f => v[1]["free"][r - 1]["generation"] = Value::from(val),
+            _ => {}
+        }
+    }
+    v.to_string()
+}
